@@ -32,6 +32,13 @@ def to_lib(r: rc.RC, route='builder', memo=None):
     B = lib()
     if route == 'boc':
         return B.Cell.one_from_boc(rc.encode_boc([r]))
+    if route == 'boc-hashes':
+        # foreign encoding in which about two thirds of the cells (ordinary and exotic alike) carry the optional stored hashes/depths;
+        # only for level masks 0, 1, 3, 7 (TON's own writer and reader disagree on the layout for masks with holes)
+        return B.Cell.one_from_boc(rc.encode_boc([r], with_hashes=lambda c: c.mask in (0, 1, 3, 7) and c.hash[0] % 3 != 0, has_idx=bool(r.hash[1] & 1),
+                                                 has_crc=bool(r.hash[1] & 2)))
+    if route == 'builder-fresh':
+        return _to_lib_fresh(r)
     memo = {} if memo is None else memo
     stack = [(r, False)]
     while stack:
@@ -58,6 +65,33 @@ def to_lib(r: rc.RC, route='builder', memo=None):
         else:
             raise ValueError(route)
     return memo[r.hash]
+
+
+def _to_lib_fresh(r: rc.RC, budget=3000):
+    """like to_lib(..., 'builder') but every occurrence of a shared sub-cell is a distinct Python object with equal content (what a user gets who
+    builds the same cell twice); falls back to sharing once `budget` cells have been constructed (ladders unfold exponentially)"""
+    B = lib()
+    memo = {}
+    built = [0]
+    import sys as _sys
+    old = _sys.getrecursionlimit()
+    _sys.setrecursionlimit(max(old, 5000))
+
+    def go(c):
+        if built[0] >= budget and c.hash in memo:
+            return memo[c.hash]
+        refs = [go(x) for x in c.refs]
+        b = B.Builder(type_=c.type)
+        b.store_bits(c.bits)
+        for x in refs:
+            b.store_ref(x)
+        built[0] += 1
+        memo[c.hash] = b.end_cell()
+        return memo[c.hash]
+    try:
+        return go(r)
+    finally:
+        _sys.setrecursionlimit(old)
 
 
 def from_lib(cell, memo=None, validate=False):
